@@ -2,7 +2,7 @@
    Statements only; each is closed by [exact] of a lemma proved in Strconv/*Proofs.v. *)
 From Coq Require Import Reals Floats.SpecFloat.
 From Flocq Require Import Core.Core IEEE754.BinarySingleNaN.
-From Verif Require Import Common.Base Strconv.Model Strconv.FModel Strconv.IntProofs Strconv.NumProofs Strconv.DecProofs Strconv.ScanProofs Strconv.FloatProofs Strconv.DecValueProofs Strconv.DecSideProofs Strconv.AFProofs Strconv.AFShape Strconv.Legacy.
+From Verif Require Import Common.Base Strconv.Model Strconv.FModel Strconv.IntProofs Strconv.NumProofs Strconv.DecProofs Strconv.ScanProofs Strconv.FloatProofs Strconv.DecValueProofs Strconv.DecSideProofs Strconv.AccuracyProofs Strconv.AFProofs Strconv.AFShape Strconv.Legacy.
 Open Scope Z_scope.
 
 (* ParseInt, for EVERY byte string: written as sign ++ digits ++ rest (sign = "", "+" or "-";
@@ -250,3 +250,105 @@ Theorem parse_decimal_fastpath_frac_partial : forall sg zs1 zs2 d1 sp' tail,
     is_finite v = true /\ B2R v = round64 (dec_real (sign_neg sg) n (- (len zs2 + len (d1 :: sp')))).
 Proof. exact parse_decimal_fastpath_frac_proof. Qed.
 Print Assumptions parse_decimal_fastpath_frac_partial.
+
+(* ---- accuracy of the parsers outside the exact fast paths (Flocq; whitelisted Reals axioms) -----------------------
+
+   uu = 2^-51 (AccuracyProofs.uu); round64 = rounding to nearest-even in binary64; Rp10 k = 10^k as a real.
+   "normal path": the kept mantissa n (at most 2^64 - 1), at most 285 decimals / dropped integer digits, an
+   exponent E in [-285, 285] and a decimal exponent of the result >= -290 (so that the exact value and every
+   intermediate product lie in the normal range of binary64 and math.Pow10 is used inside [-290, 290], where its
+   table was checked to be within 2^-51 of the powers of ten).  Outside it: exponents / digit counts beyond these
+   bounds (the listed finding class "extreme"), results within 1e-15 of MaxFloat64 ("near-max") and subnormal
+   results. *)
+
+(* math.Pow10(k) is within 2^-51 of 10^k for -290 <= k <= 290 (computed on the table dumped from the toolchain) *)
+Theorem math_pow10_accurate : forall k, -290 <= k <= 290 ->
+  exists (P : binary_float 53 1024) d, pow10 k = B2SF P /\ is_finite P = true /\
+    B2R P = (Rp10 k * (1 + d))%R /\ (Rabs d <= uu)%R.
+Proof. exact pow10_rel. Qed.
+Print Assumptions math_pow10_accurate.
+
+(* ParseFloat, no mantissa digit dropped (the digits denote n <= 2^64 - 1): on the normal path the result is
+   finite, within 6 * 2^-51 (< 2.7e-15) relative of the exact decimal value V = +-n * 10^(E - decimals) and within
+   1e-14 relative of its correctly rounded value; a zero mantissa gives a zero. *)
+Theorem parse_float_accuracy : forall sg ip fp (dot : bool) tail,
+  sign_ok sg -> all_digits ip -> all_digits fp -> (dot = false -> fp = []) -> ip ++ fp <> [] ->
+  ends_mant dot tail ->
+  (sg = [] -> no_sign (ip ++ (if dot then 46 :: fp else []) ++ tail)) ->
+  let n := dec_value (ip ++ fp) in
+  let E := fst (pf_exponent tail 0) in
+  n <= max_u64 -> len fp <= 285 -> -285 <= E <= 285 -> -290 <= E - len fp ->
+  exists (v : binary_float 53 1024) k,
+    parse_float (sg ++ ip ++ (if dot then 46 :: fp else []) ++ tail) = Ok (B2SF v, k) /\ is_finite v = true /\
+    let V := dec_real (sign_neg sg) n (E - len fp) in
+    (n = 0 -> B2R v = 0%R) /\
+    (1 <= n -> (Rabs (B2R v - V) <= 6 * uu * Rabs V)%R /\
+               (Rabs (B2R v - round64 V) <= / 100000000000000 * Rabs (round64 V))%R).
+Proof. exact parse_float_accuracy_proof. Qed.
+Print Assumptions parse_float_accuracy.
+
+(* ParseFloat, more mantissa digits than fit uint64, dropped inside the integer part (sign ip1 c ip2 [. fp] [exp]:
+   ip1 is kept, n*10+c would overflow): V is the exact value of ALL the digits; within 7 * 2^-51 of V and within
+   1e-14 of its correctly rounded value. *)
+Theorem parse_float_accuracy_trunc_int : forall sg ip1 c ip2 fp (dot : bool) tail,
+  sign_ok sg -> all_digits ip1 -> is_digit c = true -> all_digits ip2 -> all_digits fp -> (dot = false -> fp = []) ->
+  ends_mant dot tail ->
+  (sg = [] -> no_sign ((ip1 ++ c :: ip2 ++ (if dot then 46 :: fp else [])) ++ tail)) ->
+  let n := dec_value ip1 in
+  let E := fst (pf_exponent tail 0) in
+  n <= max_u64 -> max_u64 < n * 10 + (c - 48) ->
+  len ip2 <= 284 -> -285 <= E <= 285 -> E + 1 + len ip2 <= 285 ->
+  exists (v : binary_float 53 1024) k,
+    parse_float (sg ++ (ip1 ++ c :: ip2 ++ (if dot then 46 :: fp else [])) ++ tail) = Ok (B2SF v, k) /\ is_finite v = true /\
+    let D := dec_value (ip1 ++ c :: ip2 ++ fp) in
+    let V := ((if sign_neg sg then - IZR D else IZR D) * Rp10 (E - len fp))%R in
+    (Rabs (B2R v - V) <= 7 * uu * Rabs V)%R /\ (Rabs (B2R v - round64 V) <= / 100000000000000 * Rabs (round64 V))%R.
+Proof. exact parse_float_accuracy_trunc_int_proof. Qed.
+Print Assumptions parse_float_accuracy_trunc_int.
+
+(* ... dropped inside the fraction (sign ip . fp1 c fp2 [exp]) *)
+Theorem parse_float_accuracy_trunc_frac : forall sg ip fp1 c fp2 tail,
+  sign_ok sg -> all_digits ip -> all_digits fp1 -> is_digit c = true -> all_digits fp2 ->
+  ends_mant true tail ->
+  (sg = [] -> no_sign ((ip ++ 46 :: fp1 ++ c :: fp2) ++ tail)) ->
+  let n := dec_value (ip ++ fp1) in
+  let E := fst (pf_exponent tail 0) in
+  n <= max_u64 -> max_u64 < n * 10 + (c - 48) ->
+  len fp1 <= 285 -> -285 <= E <= 285 -> -290 <= E - len fp1 ->
+  exists (v : binary_float 53 1024) k,
+    parse_float (sg ++ (ip ++ 46 :: fp1 ++ c :: fp2) ++ tail) = Ok (B2SF v, k) /\ is_finite v = true /\
+    let D := dec_value (ip ++ fp1 ++ c :: fp2) in
+    let V := ((if sign_neg sg then - IZR D else IZR D) * Rp10 (E - len (fp1 ++ c :: fp2)))%R in
+    (Rabs (B2R v - V) <= 7 * uu * Rabs V)%R /\ (Rabs (B2R v - round64 V) <= / 100000000000000 * Rabs (round64 V))%R.
+Proof. exact parse_float_accuracy_trunc_frac_proof. Qed.
+Print Assumptions parse_float_accuracy_trunc_frac.
+
+(* ParseDecimal, PARTIAL: the same bounds for numbers of at most 18 characters from the first non-zero digit on
+   (no digit dropped), any n < 10^18, up to 285 decimals.  MISSING: inputs with more than 18 such characters (the
+   code then drops digits, counting the dot as a character) and more than 285 decimals (search only; beyond 300
+   decimals the listed finding class "extreme"). *)
+Theorem parse_decimal_accuracy_int_partial : forall sg zs d1 ip' fp (dot : bool) tail,
+  (sg = [] \/ sg = [45]) -> all_zeros zs -> nonzero_digit d1 -> all_digits ip' -> all_digits fp ->
+  (dot = false -> fp = []) -> ends_mant dot tail ->
+  len (d1 :: ip') + (if dot then 1 + len fp else 0) <= 18 ->
+  let n := dec_value ((d1 :: ip') ++ fp) in
+  exists (v : binary_float 53 1024) k,
+    parse_decimal (sg ++ zs ++ (d1 :: ip') ++ (if dot then 46 :: fp else []) ++ tail) = Ok (B2SF v, k) /\
+    is_finite v = true /\
+    let V := dec_real (sign_neg sg) n (- len fp) in
+    (Rabs (B2R v - V) <= 6 * uu * Rabs V)%R /\ (Rabs (B2R v - round64 V) <= / 100000000000000 * Rabs (round64 V))%R.
+Proof. exact parse_decimal_accuracy_int_proof. Qed.
+Print Assumptions parse_decimal_accuracy_int_partial.
+
+Theorem parse_decimal_accuracy_frac_partial : forall sg zs1 zs2 d1 sp' tail,
+  (sg = [] \/ sg = [45]) -> all_zeros zs1 -> all_zeros zs2 -> nonzero_digit d1 -> all_digits sp' ->
+  ends_mant true tail ->
+  len (d1 :: sp') <= 18 -> len zs2 + len (d1 :: sp') <= 285 ->
+  let n := dec_value (d1 :: sp') in
+  exists (v : binary_float 53 1024) k,
+    parse_decimal (sg ++ zs1 ++ 46 :: zs2 ++ (d1 :: sp') ++ tail) = Ok (B2SF v, k) /\
+    is_finite v = true /\
+    let V := dec_real (sign_neg sg) n (- (len zs2 + len (d1 :: sp'))) in
+    (Rabs (B2R v - V) <= 6 * uu * Rabs V)%R /\ (Rabs (B2R v - round64 V) <= / 100000000000000 * Rabs (round64 V))%R.
+Proof. exact parse_decimal_accuracy_frac_proof. Qed.
+Print Assumptions parse_decimal_accuracy_frac_partial.
